@@ -31,6 +31,7 @@ type c15outcome struct {
 const c15prelude = `boom := {|i| "R#{i}".p; raise ValueErr.new("dboom#{i}")}
 innerOk := {|| "I".p; defer "ID".p; "I2".p; 7}
 innerFail := {|| "F".p; defer "FD".p; raise TypeErr.new("inner"); "unreached".p}
+gmark := {|m| m.p; true}
 `
 
 // body renders the statements and returns the model's output lines and outcome.
@@ -89,6 +90,22 @@ func c15model(stmts []c15stmt, ex c15exit) (src []string, out []string, oc c15ou
 			}
 		case "deferF":
 			src = append(src, fmt.Sprintf(`defer "D%d".p if false`, s.id))
+		case "deferGT":
+			// the guard is true when the defer is reached and false afterwards: the defer was registered
+			src = append(src, fmt.Sprintf("g%d := true", s.id), fmt.Sprintf(`defer "D%d".p if g%d`, s.id, s.id), fmt.Sprintf("g%d := false", s.id))
+			if !exited {
+				registered = append(registered, reg{text: fmt.Sprintf("D%d", s.id)})
+			}
+		case "deferGF":
+			// the guard is false when reached and true afterwards: the defer was not registered
+			src = append(src, fmt.Sprintf("g%d := false", s.id), fmt.Sprintf(`defer "D%d".p if g%d`, s.id, s.id), fmt.Sprintf("g%d := true", s.id))
+		case "deferGM":
+			// the guard is evaluated where the defer statement stands (its marker appears in body order)
+			src = append(src, fmt.Sprintf(`defer "D%d".p if gmark("G%d")`, s.id, s.id))
+			if !exited {
+				out = append(out, fmt.Sprintf("G%d", s.id))
+				registered = append(registered, reg{text: fmt.Sprintf("D%d", s.id)})
+			}
 		case "deferTv":
 			// guard that is truthy without being the `true` object
 			src = append(src, fmt.Sprintf(`defer "D%d".p if %s`, s.id, []string{"1", `"s"`, "[0]", "{a: 1}", "0.5"}[s.id%5]))
@@ -159,6 +176,13 @@ var c15contexts = []c15ctx{
 	{name: "iterator-step", wrap: func(b string) string { return "it := <{|i|\n" + b + "\n}>.new(1)\nit.next" }},
 	{name: "var-call", wrap: func(b string) string { return "f := {|x|\n" + b + "\n}\n1.^f" }},
 	{name: "reduce-chain-callee", wrap: func(b string) string { return "[1]$(0){|acc, x|\n" + b + "\n}" }},
+	// function bodies the interpreter calls on its own: operator methods behind infix / prefix syntax, callProp,
+	// a property spread by a list chain
+	{name: "infix-operator-method", wrap: func(b string) string { return "o := {'+: m{|other|\n" + b + "\n}}\no + 1" }},
+	{name: "prefix-operator-method", wrap: func(b string) string { return "o := {'-%: m{\n" + b + "\n}}\n-o" }},
+	{name: "callProp", wrap: func(b string) string { return "o := {f: m{\n" + b + "\n}}\nObj.callProp(o, 'f)" }},
+	{name: "list-chain-prop", wrap: func(b string) string { return "o := {f: m{\n" + b + "\n}}\n[o]@f" }, val: func(v string) string { return "[" + v + "]" }},
+	{name: "comparison-operator-method", wrap: func(b string) string { return "o := {'==: m{|other|\n" + b + "\n}}\no == 1" }},
 	{name: "two-level", wrap: func(b string) string {
 		return "f := {||\n" + b + "\n}\ng := {|| \"O\".p; defer \"OD\".p; r := f(); \"O2\".p; r}\ng()"
 	}, pre: []string{"O"}},
@@ -211,6 +235,16 @@ func runC15(w *fw.W) {
 			l := []c15stmt{{kind: k, id: 1}, {kind: "mark", id: 2}, {kind: "defer", id: 3}}
 			l = append(l[:pos], append([]c15stmt{{kind: "lateVar", id: 4}}, l[pos:]...)...)
 			layouts = append(layouts, l)
+		}
+	}
+	// guards whose value changes after the defer statement / whose evaluation is visible (sampled family)
+	for _, nk := range []string{"deferGT", "deferGF", "deferGM"} {
+		for _, pos := range []int{0, 1, 2} {
+			for _, k := range kinds {
+				l := []c15stmt{{kind: k, id: 1}, {kind: "mark", id: 2}, {kind: "defer", id: 3}}
+				l = append(l[:pos], append([]c15stmt{{kind: nk, id: 4}}, l[pos:]...)...)
+				layouts = append(layouts, l)
+			}
 		}
 	}
 	chunk := 36
